@@ -103,6 +103,7 @@ def run(rep, info, model, tier, seed):
                 pairs.append((label, sc1, second_connection(rnd, compress)))
     res = fam.pool().map(_pair_worker, pairs, chunksize=4)
     mod = model.run([simnet.to_sx(p[2]) for p in pairs]) if model is not None else [None] * len(pairs)
+    rep.watch_extraction(model, [simnet.to_sx(p[2]) for p in pairs[:30]])
     dis = 0
     for (label, sc1, sc2), r, m in zip(pairs, res, mod):
         rep.add_case(fam.fingerprint(sc1) + fam.fingerprint(sc2))
